@@ -222,7 +222,7 @@ def forms_strategy(spans_safe=True):
         ]
         if not spans_safe:
             opts += [st.lists(atoms(), min_size=1, max_size=3).map(lambda xs: "#(+ % " + " ".join(xs) + ")"),
-                     ch.map(lambda f: "`" + f), seq_of(1, 2).map(lambda b: "`(a ~b ~@c " + b.replace(";", "").replace("\n", " ") + ")")]
+                     ch.map(lambda f: "`" + f), seq_of(1, 2).map(lambda b: "`(a ~b ~@c " + b.replace("; note", " ").replace("\n", " ") + ")")]
         return st.one_of(opts)
     return st.recursive(atoms(), extend, max_leaves=12)
 
